@@ -1,65 +1,52 @@
-// C19 - ARM64 JIT output is equivalent to the interpreter.
-// The A64 emitter is compiled for the host and produces the bytes it would produce on AArch64; the hand-written runtime comes from
-// the cross-assembled blob; emitted code + runtime are executed by the instruction-subset emulator (emu/a64.hpp).
-// Oracle: register file, scratchpad and rounding mode == host InterpretedVm on the same injected program; dataset items from the
-// emitted dataset-init code == initDatasetItem.
+// C20 - RISC-V (RV64GC) JIT output is equivalent to the interpreter.
+// The scalar RV64 emitter is compiled for the host; its output and the cross-assembled hand-written runtime are executed by the
+// RV64GC instruction-subset emulator (emu/rv64.hpp). Oracle as in C19.
 #define RXENV_DEFINE_WRAPPERS
 #include "harness/rxenv.hpp"
 #include "gen/progs.hpp"
 #include "gen/gens.hpp"
 #include "vm_interpreted.hpp"
-namespace randomx { class JitCompilerA64; }
-#include "jit_compiler_a64.hpp"
-#include "emu/a64.hpp"
+#include "jit_compiler_rv64.hpp"
+#include "emu/rv64.hpp"
 #include "soft_aes.h"
 
 using namespace randomx;
-using Bytes = std::vector<uint8_t>;
 
-// size of the code buffer: recorded from the emitter's own allocation request
 static size_t g_lastPages = 0;
 extern "C" void* __real_allocMemoryPages(size_t);
 extern "C" void* __wrap_allocMemoryPages(size_t n) { g_lastPages = n; return __real_allocMemoryPages(n); }
 
 static rxe::Env env;
-static JitCompilerA64* jit = nullptr; static size_t jitBytes = 0;
+static JitCompilerRV64* jit = nullptr; static size_t jitBytes = 0;
 static std::vector<uint8_t> gspad(RANDOMX_SCRATCHPAD_L3);
 static std::vector<uint8_t> gstack(1 << 16);
 static std::map<uint32_t, const char*> traceWords;
-static Bytes sshashKey;
 
-static void addCommonRegions(a64::Cpu& cpu) {
+static void addCommonRegions(rv64::Cpu& cpu) {
 	cpu.regions.push_back({(uintptr_t)jit->getCode(), (uintptr_t)jit->getCode() + jitBytes, false, "code buffer"});
 	cpu.regions.push_back({(uintptr_t)gstack.data(), (uintptr_t)gstack.data() + gstack.size(), true, "stack"});
 	cpu.regions.push_back({(uintptr_t)&randomx_aes_lut_enc[0][0], (uintptr_t)&randomx_aes_lut_enc[0][0] + 4096, false, "aes enc tables"});
 	cpu.regions.push_back({(uintptr_t)&randomx_aes_lut_dec[0][0], (uintptr_t)&randomx_aes_lut_dec[0][0] + 4096, false, "aes dec tables"});
 }
-static void ensureSshash() {
-	// the cache of env is constant per worker; emit the SuperscalarHash routine once
-	static bool done = false; if (done) return;
-	jit->generateSuperscalarHash(env.cache->programs, env.cache->reciprocalCache); done = true;
-}
+static void ensureSshash() { static bool done = false; if (done) return; jit->generateSuperscalarHash(env.cache->programs, env.cache->reciprocalCache); done = true; }
 
 static std::string body(const pg::ProgCase& c) {
 	int flags = (c.hardAes ? RANDOMX_FLAG_HARD_AES : 0) | (c.fast ? RANDOMX_FLAG_FULL_MEM : 0) | (c.v2 ? RANDOMX_FLAG_V2 : 0);
-	// reference: host interpreter through its real run()
 	randomx_vm* vi = env.vm(flags);
 	auto ref = rxe::runInjected(vi, c.prog.data(), c.spadClass, c.spadSeed, c.fprc);
-	// VM programming through the implementation's own initialize()
 	static InterpretedVmDefault* cfgvm = new InterpretedVmDefault(RANDOMX_FLAG_DEFAULT);
 	memcpy((void*)&cfgvm->program, c.prog.data(), rxe::ProgramBytes);
 	cfgvm->initialize();
 	alignas(64) static Program prog; memcpy((void*)&prog, c.prog.data(), rxe::ProgramBytes);
 	jit->setFlags((randomx_flags)flags);
 	if (c.fast) jit->generateProgram(prog, cfgvm->config); else { ensureSshash(); jit->generateProgramLight(prog, cfgvm->config, (uint32_t)cfgvm->datasetOffset); }
-	// guest state
 	alignas(64) RegisterFile greg; memset(&greg, 0, sizeof greg);
 	memcpy(greg.a, cfgvm->reg.a, sizeof greg.a);
-	memcpy(greg.f, cfgvm->config.eMask, sizeof(cfgvm->config.eMask));   // the aarch64-only line of CompiledVm::execute() (compiled out on this host)
+	memcpy(greg.f, cfgvm->config.eMask, sizeof(cfgvm->config.eMask));   // the aarch64/riscv-only line of CompiledVm::execute()
 	MemoryRegisters gmem; gmem.mx = cfgvm->mem.mx; gmem.ma = cfgvm->mem.ma;
 	gmem.memory = c.fast ? env.synth.ds.memory + cfgvm->datasetOffset : env.cache->memory;
 	rxe::fillScratchpad(gspad.data(), c.spadClass, c.spadSeed);
-	a64::Cpu cpu; memset(cpu.x, 0, sizeof cpu.x); memset(cpu.v, 0, sizeof cpu.v);
+	rv64::Cpu cpu; memset(cpu.x, 0, sizeof cpu.x); memset(cpu.f, 0, sizeof cpu.f);
 	cpu.trace = &traceWords;
 	addCommonRegions(cpu);
 	cpu.regions.push_back({(uintptr_t)&greg, (uintptr_t)&greg + sizeof greg, true, "register file"});
@@ -67,23 +54,25 @@ static std::string body(const pg::ProgCase& c) {
 	cpu.regions.push_back({(uintptr_t)gspad.data(), (uintptr_t)gspad.data() + gspad.size(), true, "scratchpad"});
 	if (c.fast) cpu.regions.push_back({(uintptr_t)env.synth.ds.memory, (uintptr_t)env.synth.ds.memory + (size_t)DatasetSize, false, "dataset"});
 	else cpu.regions.push_back({(uintptr_t)env.cache->memory, (uintptr_t)env.cache->memory + (size_t)CacheSize, false, "cache"});
-	static const uint64_t rmode[4] = {0, 2, 1, 3};   // RandomX fprc -> Arm FPCR.RMode (nearest, -inf = RM(2), +inf = RP(1), zero)
-	cpu.fpcr = rmode[c.fprc & 3] << 22;
-	cpu.x[0] = (uint64_t)&greg; cpu.x[1] = (uint64_t)&gmem; cpu.x[2] = (uint64_t)gspad.data(); cpu.x[3] = RANDOMX_PROGRAM_ITERATIONS;
-	cpu.sp = (uint64_t)gstack.data() + gstack.size() - 64;
-	if (!cpu.run((uint64_t)jit->getCode(), 150000000ULL)) return "emulated AArch64 code faulted: " + cpu.error + " (pc offset " + std::to_string((int64_t)(cpu.pc - (uint64_t)jit->getCode())) + ", after " + std::to_string(cpu.steps) + " instructions)";
-	if (cpu.sp != (uint64_t)gstack.data() + gstack.size() - 64) return "stack pointer not restored by the emitted code";
-	if (memcmp(greg.r, ref.reg.r, 64) != 0) { int i = 0; while (greg.r[i] == ref.reg.r[i]) ++i; return "r" + std::to_string(i) + " after the A64 code is " + vh::u64s(greg.r[i]) + ", the interpreter gives " + vh::u64s(ref.reg.r[i]); }
-	if (memcmp(greg.f, ref.reg.f, 64) != 0) return "group F registers differ between the A64 code and the interpreter: " + vh::hex(greg.f, 64) + " vs " + vh::hex(ref.reg.f, 64);
-	if (memcmp(greg.e, ref.reg.e, 64) != 0) return "group E registers differ between the A64 code and the interpreter";
+	static const unsigned frmOf[4] = {0, 2, 3, 1};   // RandomX fprc -> RISC-V frm (RNE, RDN, RUP, RTZ)
+	cpu.frm = frmOf[c.fprc & 3];
+	cpu.x[10] = (uint64_t)&greg; cpu.x[11] = (uint64_t)&gmem; cpu.x[12] = (uint64_t)gspad.data(); cpu.x[13] = RANDOMX_PROGRAM_ITERATIONS;
+	const uint64_t sp0 = (uint64_t)gstack.data() + gstack.size() - 64;
+	cpu.x[2] = sp0;
+	if (!cpu.run((uint64_t)jit->getProgramFunc(), 150000000ULL)) return "emulated RV64 code faulted: " + cpu.error + " (pc offset " + std::to_string((int64_t)(cpu.pc - (uint64_t)jit->getCode())) + ", after " + std::to_string(cpu.steps) + " instructions)";
+	if (cpu.x[2] != sp0) return "stack pointer not restored by the emitted code";
+	if (memcmp(greg.r, ref.reg.r, 64) != 0) { int i = 0; while (greg.r[i] == ref.reg.r[i]) ++i; return "r" + std::to_string(i) + " after the RV64 code is " + vh::u64s(greg.r[i]) + ", the interpreter gives " + vh::u64s(ref.reg.r[i]); }
+	if (memcmp(greg.f, ref.reg.f, 64) != 0) return "group F registers differ between the RV64 code and the interpreter: " + vh::hex(greg.f, 64) + " vs " + vh::hex(ref.reg.f, 64);
+	if (memcmp(greg.e, ref.reg.e, 64) != 0) return "group E registers differ between the RV64 code and the interpreter";
 	const uint8_t* sp = (const uint8_t*)vi->getScratchpad();
-	if (memcmp(gspad.data(), sp, RANDOMX_SCRATCHPAD_L3) != 0) { size_t i = 0; while (gspad[i] == sp[i]) ++i; return "scratchpad differs at offset " + std::to_string(i & ~7ull) + ": A64 " + vh::hex(&gspad[i & ~7ull], 8) + " interpreter " + vh::hex(sp + (i & ~7ull), 8); }
-	static const int back[4] = {0, 2, 1, 3};
-	if (back[(cpu.fpcr >> 22) & 3] != (int)((ref.mxcsr >> 13) & 3)) return "rounding mode after the program differs: A64 FPCR.RMode " + std::to_string((cpu.fpcr >> 22) & 3) + ", interpreter fprc " + std::to_string((ref.mxcsr >> 13) & 3);
+	if (memcmp(gspad.data(), sp, RANDOMX_SCRATCHPAD_L3) != 0) { size_t i = 0; while (gspad[i] == sp[i]) ++i; return "scratchpad differs at offset " + std::to_string(i & ~7ull) + ": RV64 " + vh::hex(&gspad[i & ~7ull], 8) + " interpreter " + vh::hex(sp + (i & ~7ull), 8); }
+	static const int back[8] = {0, 3, 1, 2, -1, -1, -1, -1};
+	if (back[cpu.frm & 7] != (int)((ref.mxcsr >> 13) & 3)) return "rounding mode after the program differs: RV64 frm " + std::to_string(cpu.frm) + ", interpreter fprc " + std::to_string((ref.mxcsr >> 13) & 3);
 	if (vh::st().replaying) return "";
 	pg::Feat f = pg::classify(c.prog.data(), c.nInstr());
-	vh::label(std::string("shape:") + pg::shapeName(c.shape)); vh::label(c.fast ? "mode:fast" : "mode:light"); vh::label(c.v2 ? (c.hardAes ? "v2-hard-aes" : "v2-soft-aes") : "v1");
-	if (f.types[pg::IMUL_RCP] > 12) vh::label("imul_rcp>12(literal-pool-path)");
+	vh::label(std::string("shape:") + pg::shapeName(c.shape)); vh::label(c.fast ? "mode:fast" : "mode:light"); vh::label(c.v2 ? "v2(soft-aes mix)" : "v1");
+	int rcp = f.types[pg::IMUL_RCP];
+	if (rcp > 10) vh::label("imul_rcp>10(literal-pool-path)"); else if (rcp > 4) vh::label("imul_rcp>4(fp-register-path)");
 	if (f.cfround) vh::label("has:cfround"); if (f.cbranch) vh::label("has:cbranch");
 	vh::label("guest-instructions", cpu.steps);
 	vh::st().labels["max:distinct-instruction-words"] = traceWords.size();
@@ -91,7 +80,6 @@ static std::string body(const pg::ProgCase& c) {
 	return "";
 }
 
-// ---- emitted dataset-init code ---------------------------------------------------------------------------------------------------
 struct DCase {
 	uint64_t start; uint32_t count;
 	std::string dump() const { return vh::KVWriter()("start", start)("count", count).str(); }
@@ -100,15 +88,15 @@ struct DCase {
 static std::string dsBody(const DCase& c) {
 	ensureSshash();
 	std::vector<uint8_t> out((size_t)c.count * 64 + 64, 0xEE);
-	a64::Cpu cpu; memset(cpu.x, 0, sizeof cpu.x); memset(cpu.v, 0, sizeof cpu.v); cpu.trace = &traceWords;
+	rv64::Cpu cpu; memset(cpu.x, 0, sizeof cpu.x); memset(cpu.f, 0, sizeof cpu.f); cpu.trace = &traceWords;
 	addCommonRegions(cpu);
 	cpu.regions.push_back({(uintptr_t)env.cache, (uintptr_t)env.cache + 8, false, "cache object"});
 	cpu.regions.push_back({(uintptr_t)env.cache->memory, (uintptr_t)env.cache->memory + (size_t)CacheSize, false, "cache"});
 	cpu.regions.push_back({(uintptr_t)out.data(), (uintptr_t)out.data() + (size_t)c.count * 64, true, "dataset output"});
-	cpu.x[0] = (uint64_t)env.cache; cpu.x[1] = (uint64_t)out.data(); cpu.x[2] = c.start; cpu.x[3] = c.start + c.count;
-	cpu.sp = (uint64_t)gstack.data() + gstack.size() - 64;
+	cpu.x[10] = (uint64_t)env.cache; cpu.x[11] = (uint64_t)out.data(); cpu.x[12] = c.start; cpu.x[13] = c.start + c.count;
+	cpu.x[2] = (uint64_t)gstack.data() + gstack.size() - 64;
 	if (!cpu.run((uint64_t)jit->getDatasetInitFunc(), 2000000000ULL)) return "emulated dataset-init code faulted: " + cpu.error;
-	for (uint32_t i = 0; i < c.count; ++i) { uint8_t refItem[64]; initDatasetItem(env.cache, refItem, c.start + i); if (memcmp(refItem, &out[(size_t)i * 64], 64) != 0) return "dataset item " + std::to_string(c.start + i) + " from the emitted A64 code differs from the interpreter item"; }
+	for (uint32_t i = 0; i < c.count; ++i) { uint8_t refItem[64]; initDatasetItem(env.cache, refItem, c.start + i); if (memcmp(refItem, &out[(size_t)i * 64], 64) != 0) return "dataset item " + std::to_string(c.start + i) + " from the emitted RV64 code differs from the interpreter item"; }
 	for (int i = 0; i < 64; ++i) if (out[(size_t)c.count * 64 + i] != 0xEE) return "emitted dataset-init code wrote past the requested items";
 	if (vh::st().replaying) return "";
 	vh::label("dataset-items-compared", c.count); vh::nontrivial(vh::mix(c.start, c.count));
@@ -118,20 +106,18 @@ static std::string dsBody(const DCase& c) {
 int main(int argc, char** argv) {
 	using namespace rc;
 	auto minimizer = [](const pg::ProgCase& c) { return pg::minimize(c, [](const pg::ProgCase& t) { return !body(t).empty(); }); };
-	// shape weights: natural, saturated, branchy, store-L3, sparse, fp-heavy, rcp-noop
-	vh::registerCheck<pg::ProgCase>("a64_prog", [] { return pg::genProgCase({6, 4, 3, 2, 2, 2, 1}, 70, false); }, body, true, minimizer);
-	vh::registerCheck<DCase>("a64_dataset", [] {
+	vh::registerCheck<pg::ProgCase>("rv64_prog", [] { return pg::genProgCase({6, 4, 3, 2, 2, 2, 1}, 70, false); }, body, true, minimizer);
+	vh::registerCheck<DCase>("rv64_dataset", [] {
 		return gen::resize(100, gen::apply([](uint64_t s, int cnt, int kind) { const uint64_t N = DatasetSize / 64; uint64_t start = kind == 0 ? 0 : kind == 1 ? N - cnt : s % (N - cnt); return DCase{start, (uint32_t)cnt}; },
 			gen::arbitrary<uint64_t>(), gen::inRange(1, 33), gen::inRange(0, 4)));
 	}, dsBody, true);
 	int rc_ = vh::harnessMain(argc, argv, [] {
 		env.init(true);
-		jit = new JitCompilerA64(); jitBytes = g_lastPages;
+		jit = new JitCompilerRV64(); jitBytes = g_lastPages;
 		jit->enableWriting();
 	});
-	// distinct executed instruction words + the emulator's decoding, for the llvm-objdump cross-check done by the driver
 	if (const char* d = getenv("VERIF_WORDS_DIR")) {
-		std::string fn = std::string(d) + "/a64-w" + std::to_string(vh::st().worker) + ".txt";
+		std::string fn = std::string(d) + "/rv64-w" + std::to_string(vh::st().worker) + ".txt";
 		if (FILE* f = fopen(fn.c_str(), "w")) { for (auto& kv : traceWords) fprintf(f, "%08x %s\n", kv.first, kv.second); fclose(f); }
 	}
 	return rc_;
